@@ -470,6 +470,23 @@ def run(ctx: Ctx) -> None:
     outcomes = explore_instances(ctx, "instances_len1-5_over_0-3",
                                  (0, 1, 2, 3), (1, 2, 3, 4, 5), dn, powers,
                                  (1, 2, 10))
+    # many-way ties: Hamming distance over 3-bit numbers
+    outcomes |= explore_instances(ctx, "instances_len1-4_over_0-7_hamming",
+                                  tuple(range(8)), (1, 2, 3, 4), ("ham",),
+                                  (0.5, 2), (1, 2, 3))
+    # many distinct objects: sizes around the 8-bit limits
+    longs = [tuple(range(n)) for n in (127, 128, 129, 130, 255, 256, 257)]
+    out = pmap(_inst_job, [([v], ("abs",), (1,), (2,)) for v in longs],
+               ctx.jobs)
+    for r in out:
+        for st, rec in r[6].items():
+            report_inst(ctx, st, *rec)
+        if r[7] is not None:
+            report_inst(ctx, "rejected", *r[7])
+        outcomes |= r[5]
+    ctx.add("evaluations", len(longs))
+    ctx.part("instances_with_127_to_257_distinct_objects",
+             instances=len(longs))
     if not ctx.quick:
         outcomes |= explore_instances(
             ctx, "instances_len6_over_0-3", (0, 1, 2, 3), (6,), dn, powers,
